@@ -1,5 +1,6 @@
 -- FALLBACK copy (tools/gotolean refused the current util.go): the translation of the pinned sources, kept so that the project builds; the flags say that the tie is by correspondence only.
 import Jmes.Slice
+import Jmes.Value
 namespace Jmes.GenSlice
 open Jmes.Slice (wrap64)
 
@@ -247,6 +248,17 @@ def slice {α : Type} (fuel : Nat) (xs : List α) (parts : List SliceParam) : Re
       if (decide (step > (0 : Int))) = true then sliceLoop1 xs start stop step fuel start
       else sliceLoop2 xs start stop step fuel start
     | _, _, _ => .panic "util.go: computed[k] index out of range"
+
+/-- util.go `isFalse` on decoded JSON: the clauses of its type switch, translated -/
+def isFalseTranslated : Bool := false
+
+def isFalse {N : Type} : Val N → Bool
+  | .null => true
+  | .bool v => (!v)
+  | .str s => let length : Int := s.length; (length == (0 : Int))
+  | .arr xs => let length : Int := xs.length; (length == (0 : Int))
+  | .obj kvs => let length : Int := kvs.length; (length == (0 : Int))
+  | .num _ => false   -- a float64 matches no clause of the type switch and no case of the Kind switch
 
 /-- interpreter.go, `case ASTIndex:` on a `[]interface{}` of length `length`: the selected position, `none` = null -/
 def indexTranslated : Bool := false
